@@ -110,6 +110,11 @@ def main():
             if hasattr(mod, "prepare"):
                 mod.prepare(ctx)
             impl = core.run_impl(exe, cases, wd, case_timeout=getattr(mod, "CASE_TIMEOUT", 10))
+            # a case that ran into its time limit while the machine was busy is run once more, with nothing beside it and four
+            # times the limit: a hang is a hang at any load, slowness under foreign load is not a finding
+            slow = [c for c in cases if "H timeout" in (impl.get(c.cid) or [])]
+            if 0 < len(slow) <= 40:
+                impl.update(core.run_impl(exe, slow, wd, tag="impl_again", case_timeout=4 * getattr(mod, "CASE_TIMEOUT", 10)))
             model = core.run_model(cases, wd)
             evaluations = len(cases)
             seen = set()
